@@ -8,6 +8,7 @@ package server
 //  (3) the ownership invariant evaluated under the panel's own locks at quiescent points.
 
 import (
+	"errors"
 	"fmt"
 	mrand "math/rand/v2"
 	"os"
@@ -16,6 +17,7 @@ import (
 	"sort"
 	"strings"
 	"sync"
+	"sync/atomic"
 	"testing"
 	"time"
 
@@ -33,6 +35,26 @@ type c17Env struct {
 	uids  [][]byte
 	mu    sync.Mutex
 	given map[*mux.Session][2]uint32 // every session handed out by GetSession -> (uid index, sid)
+	// every failEvery-th status upload fails when > 0
+	failEvery     atomic.Int64
+	uploadsFailed atomic.Int64
+}
+
+// flakyManager makes every failEvery-th status upload fail (a user database that is briefly
+// unreachable); everything else goes to the real manager.
+type flakyManager struct {
+	usermanager.UserManager
+	failEvery *atomic.Int64
+	n         *atomic.Int64
+	failed    *atomic.Int64
+}
+
+func (m flakyManager) UploadStatus(s []usermanager.StatusUpdate) ([]usermanager.StatusResponse, error) {
+	if fe := m.failEvery.Load(); fe > 0 && m.n.Add(1)%fe == 0 {
+		m.failed.Add(1)
+		return nil, errors.New("injected fault: the user manager is unreachable")
+	}
+	return m.UserManager.UploadStatus(s)
 }
 
 func newC17Env(rng *mrand.Rand, nu int, cap int32) *c17Env {
@@ -45,7 +67,7 @@ func newC17Env(rng *mrand.Rand, nu int, cap int32) *c17Env {
 		panic(err)
 	}
 	e := &c17Env{mgr: mgr, dir: dir, given: map[*mux.Session][2]uint32{}}
-	e.panel = MakeUserPanel(mgr)
+	e.panel = MakeUserPanel(flakyManager{mgr, &e.failEvery, new(atomic.Int64), &e.uploadsFailed})
 	for i := 0; i < nu; i++ {
 		uid := randUID(rng)
 		e.uids = append(e.uids, uid)
@@ -179,6 +201,9 @@ func waitOrClassify(done chan struct{}, first time.Duration) (string, string) {
 func c17Storm(r *vk.Reporter, rng *mrand.Rand, workers, ops int) (string, string) {
 	e := newC17Env(rng, 1+rng.IntN(4), 1000)
 	defer e.close()
+	if rng.IntN(2) == 0 {
+		e.failEvery.Store(int64(3 + rng.IntN(8))) // in half of the storms some status uploads fail
+	}
 	var wg sync.WaitGroup
 	done := make(chan struct{})
 	for w := 0; w < workers; w++ {
@@ -222,6 +247,7 @@ func c17Storm(r *vk.Reporter, rng *mrand.Rand, workers, ops int) (string, string
 	go func() { wg.Wait(); close(done) }()
 	k, d := waitOrClassify(done, 60*time.Second)
 	r.Count("storm_operations", int64(workers*ops))
+	r.Count("storm_uploads_failed_by_injection", e.uploadsFailed.Load())
 	if k != "" {
 		return k, d
 	}
@@ -281,6 +307,38 @@ func c17Forced(r *vk.Reporter, rng *mrand.Rand, which string) (string, string) {
 		if k, d := waitOrClassify(done, 5*time.Second); k != "" {
 			return k, "usage collection (updateUsageQueue) overlapped by the commit of another upload round: " + d
 		}
+	case "upload-fails":
+		// a status upload fails (user manager unreachable) while a limited user has usage queued; every
+		// later bookkeeping call must still complete
+		u0, _ := e.admit(0, 1)
+		u1, _ := e.admit(1, 1)
+		if u0 == nil || u1 == nil {
+			return "inconclusive", "users not admitted"
+		}
+		u0.valve.AddTx(1000)
+		u1.valve.AddRx(500)
+		e.panel.updateUsageQueue()
+		e.failEvery.Store(1)
+		err := e.panel.commitUpdate()
+		e.failEvery.Store(0)
+		if err == nil || e.uploadsFailed.Load() == 0 {
+			return "inconclusive", "the injected upload failure was not reached"
+		}
+		r.Count("forced_upload_failures", 1)
+		done := make(chan struct{})
+		go func() {
+			u0.valve.AddTx(7)
+			e.panel.updateUsageQueue()
+			e.panel.commitUpdate()
+			u0.CloseSession(1, "test")
+			e.panel.TerminateActiveUser(u1, "test")
+			e.panel.updateUsageQueue()
+			e.panel.commitUpdate()
+			close(done)
+		}()
+		if k, d := waitOrClassify(done, 5*time.Second); k != "" {
+			return k, "bookkeeping after a failed status upload (next upload round, CloseSession of a last session, TerminateActiveUser): " + d
+		}
 	case "admit-vs-last-close", "terminate-vs-readmit":
 		return c17ForcedDispatch(r, rng, which)
 	}
@@ -310,7 +368,7 @@ func TestVerif_C17(t *testing.T) {
 			r.Violation(id, "C17:"+k, d, nil)
 		}
 	}
-	for i, which := range []string{"two-upload-rounds", "admit-vs-last-close", "terminate-vs-readmit", "two-upload-rounds", "admit-vs-last-close", "terminate-vs-readmit"} {
+	for i, which := range []string{"two-upload-rounds", "admit-vs-last-close", "terminate-vs-readmit", "two-upload-rounds", "admit-vs-last-close", "terminate-vs-readmit", "upload-fails", "upload-fails"} {
 		id := fmt.Sprintf("forced/%s/%d", which, i)
 		if !r.Mine(id) {
 			continue
